@@ -715,6 +715,26 @@ const EXTRA_CAPS: [&str; 4] = [
     "http://xml.juniper.net/dmi/system/1.0",
 ];
 
+/// "modules-N": a server that lists N YANG modules, one capability each (a hello of N x 70 bytes)
+fn module_caps(c: &Value) -> Vec<String> {
+    let n: usize = c["extra"].as_str().and_then(|x| x.strip_prefix("modules-")).and_then(|n| n.parse().ok()).unwrap_or(0);
+    (0..n).map(|i| format!("http://example.com/yang/vendor-module-{i:05}?module=vendor-module-{i:05}")).collect()
+}
+
+/// the module capabilities of a list, replaced by one entry that stands for them (count and a checksum)
+fn summarise_modules(caps: Vec<String>) -> Vec<String> {
+    let (mods, mut rest): (Vec<String>, Vec<String>) = caps.into_iter().partition(|u| u.starts_with("http://example.com/yang/vendor-module-"));
+    if !mods.is_empty() {
+        let mut sorted = mods.clone();
+        sorted.sort();
+        sorted.dedup();
+        let sum = sorted.iter().flat_map(|u| u.bytes()).fold(0u64, |a, b| a.wrapping_mul(1_000_003).wrapping_add(b as u64));
+        rest.push(format!("vendor-modules:{}:{}:{sum:016x}", mods.len(), sorted.len()));
+    }
+    rest.sort();
+    rest
+}
+
 fn lookalikes(c: &Value) -> Vec<&'static str> {
     match c["extra"].as_str().unwrap_or("none") {
         // the XML namespace of the protocol, which many servers list next to the capabilities
@@ -752,6 +772,9 @@ fn hello_case_xml(c: &Value) -> String {
     // capabilities that look like a base-protocol capability and are none
     for u in lookalikes(c) {
         caps.push_str(&format!("<{p}capability>{}</{p}capability>", u.replace('&', "&amp;")));
+    }
+    for u in module_caps(c) {
+        caps.push_str(&format!("<{p}capability>{u}</{p}capability>\n"));
     }
     let sid_el = |t: &str| format!("<{p}session-id>{t}</{p}session-id>");
     let sids = match sid {
@@ -821,7 +844,8 @@ fn c12(cases_path: &str, out: &mut dyn Write) {
             hello_caps.push(JUNOS_CAP.into());
             hello_caps.extend(EXTRA_CAPS.iter().map(|u| u.to_string()));
             hello_caps.extend(lookalikes(c).iter().map(|u| u.to_string()));
-            hello_caps.sort();
+            hello_caps.extend(module_caps(c));
+            let hello_caps = summarise_modules(hello_caps);
             let mut ev = json!({"ev": "c12", "case": k, "c": c, "client_base": client_base, "hello_caps": hello_caps,
                                 "client_hello_framing": if client_hello.ends_with(EOM) { "eom" } else { "other" }});
             match r {
@@ -837,8 +861,8 @@ fn c12(cases_path: &str, out: &mut dyn Write) {
                     let ctx = session.context();
                     ev["version"] = json!(format!("{}", ctx.protocol_version()).trim_start_matches(":base:"));
                     ev["sid"] = json!(format!("{}", ctx.session_id()));
-                    let mut caps: Vec<String> = ctx.server_capabilities().iter().map(|c| c.uri().to_string()).collect();
-                    caps.sort();
+                    let caps: Vec<String> = ctx.server_capabilities().iter().map(|c| c.uri().to_string()).collect();
+                    let caps = summarise_modules(caps);
                     ev["caps"] = json!(caps);
                     // the same list with XML escaping undone (decides which of two rules a difference falls under)
                     let mut un: Vec<String> = caps.iter().map(|c| c.replace("&amp;", "&")).collect();
@@ -1396,10 +1420,26 @@ fn c14(cases_path: &str, from: usize, out: &mut dyn Write) {
     use rand::SeedableRng as _;
     let v: Value = serde_json::from_str(&std::fs::read_to_string(cases_path).unwrap()).unwrap();
     let tmpls = templates();
+    // the code under test may block the very thread that polls it (a lock taken twice): no in-process time-out can
+    // fire then.  A watchdog thread ends the process; the case without an output line is the one that hung.
+    static CASE_STARTED: std::sync::atomic::AtomicU64 = std::sync::atomic::AtomicU64::new(0);
+    static CASE_NO: std::sync::atomic::AtomicU64 = std::sync::atomic::AtomicU64::new(0);
+    let now_s = || std::time::SystemTime::now().duration_since(std::time::UNIX_EPOCH).map(|d| d.as_secs()).unwrap_or(0);
+    std::thread::spawn(move || loop {
+        std::thread::sleep(std::time::Duration::from_secs(2));
+        let t = CASE_STARTED.load(std::sync::atomic::Ordering::SeqCst);
+        let now = std::time::SystemTime::now().duration_since(std::time::UNIX_EPOCH).map(|d| d.as_secs()).unwrap_or(0);
+        if t != 0 && now > t + 30 {
+            eprintln!("WATCHDOG: case {} did not come back within 30 s - the thread polling the session is blocked", CASE_NO.load(std::sync::atomic::Ordering::SeqCst));
+            std::process::exit(97);
+        }
+    });
     for (k, c) in v["cases"].as_array().unwrap().iter().enumerate() {
         if k < from {
             continue;
         }
+        CASE_NO.store(k as u64, std::sync::atomic::Ordering::SeqCst);
+        CASE_STARTED.store(now_s(), std::sync::atomic::Ordering::SeqCst);
         let tname = c["tmpl"].as_str().unwrap_or("");
         let Some((_, op, tree)) = tmpls.iter().find(|(n, _, _)| *n == tname) else { continue };
         let base = xmlgen::render(tree, &Style::default());
@@ -1407,8 +1447,17 @@ fn c14(cases_path: &str, from: usize, out: &mut dyn Write) {
         // the damaged message is made once the message-id of the request it answers is known (the ids are the
         // library's business); for a hello there is none
         let make = |id2: &str| -> Vec<u8> {
-            let base = base0.replace("@ID@", if c["op"] == "hugeint" { "@ID@" } else { id2 });
-            mutate(base.as_bytes(), c["op"].as_str().unwrap_or("none"), c["p"].as_u64().unwrap_or(0) as usize,
+            // a well-formed reply that names a request nobody made: far beyond the last id, zero, the largest number
+            // the id type holds, one below the first id
+            let stray = match c["op"].as_str().unwrap_or("") {
+                "strayid-far" => Some((id2.parse::<u64>().unwrap_or(2) + 1000).to_string()),
+                "strayid-next" => Some((id2.parse::<u64>().unwrap_or(2) + 2).to_string()),
+                "strayid-zero" => Some("0".to_string()),
+                "strayid-max" => Some(u64::MAX.to_string()),
+                _ => None,
+            };
+            let base = base0.replace("@ID@", if c["op"] == "hugeint" { "@ID@" } else { stray.as_deref().unwrap_or(id2) });
+            mutate(base.as_bytes(), if stray.is_some() { "none" } else { c["op"].as_str().unwrap_or("none") }, c["p"].as_u64().unwrap_or(0) as usize,
                    c["q"].as_u64().unwrap_or(0) as usize, c["seed"].as_u64().unwrap_or(k as u64))
         };
         let mut ev = json!({"ev": "c14", "case": k, "c": c});
@@ -1512,6 +1561,7 @@ fn c14(cases_path: &str, from: usize, out: &mut dyn Write) {
         // case that killed it is the first one without a line
         out.flush().unwrap();
     }
+    CASE_STARTED.store(0, std::sync::atomic::Ordering::SeqCst);
 }
 
 fn main() {
